@@ -10,11 +10,17 @@
          shelx.py   _assign_atoms_to_restraints, does_atom_exist
          It mirrors the code WITH the repairs fixes/C17_1..5 applied; `Legacy` (end of the file) mirrors
          the code as it was before them, and ShelxProps/C17.lean keeps a `decide` witness per difference.
+         `printed` is the step from `bad_atoms` to the names in the message (`sorted(set(bad_atoms))`).
+         `restrOf` / `assignLines` start one step earlier, at the PHYSICAL lines of the file: the continuation loop
+         and the split of `_parse_cards` (model: ShelxModel/C05.lean `modelLogicalLines`, `classify`), then
+         `Restraint.__init__` (first token = keyword, non-numerical rest = atoms).
 
   SPEC   what the property says, on parsed data: a token is (NAME, suffix kind); a restraint addresses a list
          of residue numbers per token; `missing` lists the (NAME, residue) pairs that are addressed and do not
          exist. No string is formatted, split or looked up in a dictionary on this side.
 -/
+import ShelxModel.C05
+
 namespace Shelx.C17
 
 abbrev Str := List Char
@@ -164,6 +170,23 @@ def evaluate (f : File) (r : Restr) : Except PyErr Outcome := do
 /-- `_assign_atoms_to_restraints` for restraint `r`: `self.atoms._atomsdict.clear()` first (fix C17_5), then the loop -/
 def assign (f : File) (r : Restr) : Except PyErr Outcome := evaluate { f with cache := [] } r
 
+/-! ### from `bad_atoms` to the message: `sorted_atoms = list(set(bad_atoms)); sorted_atoms.sort()` -/
+
+/-- `a < b` for `str` (ASCII): lexicographic by code point -/
+def strLt : Str → Str → Bool
+  | [], [] => false
+  | [], _ :: _ => true
+  | _ :: _, [] => false
+  | a :: as, b :: bs => if a.toNat < b.toNat then true else if a = b then strLt as bs else false
+
+/-- put `s` into a sorted list that has no duplicates -/
+def insertSorted (s : Str) : List Str → List Str
+  | [] => [s]
+  | x :: xs => if s = x then x :: xs else if strLt s x then s :: x :: xs else x :: insertSorted s xs
+
+/-- `sorted(set(bad_atoms))`: the names that stand after 'Atom list has no -->' -/
+def printed (bad : List Str) : List Str := bad.foldr insertSorted []
+
 /-- does the restraint produce any line in `restraint_errors`? -/
 def Outcome.anyMessage (o : Outcome) : Bool := !o.bad.isEmpty || o.classMsg
 
@@ -183,6 +206,9 @@ def parseReport (s : Str) : Str × Nat :=
   (upper (beforeUS s), match afterUS s with | none => 0 | some d => toNat d)
 
 def reported (o : Outcome) : List (Str × Nat) := o.bad.map parseReport
+
+/-- the (NAME, residue) pairs the message names: the printed names read back -/
+def named (o : Outcome) : List (Str × Nat) := (printed o.bad).map parseReport
 
 /-! ## SPEC -/
 
@@ -320,6 +346,40 @@ def run (f : File) (ops : List Op) : File := ops.foldl step f
 def Op.keepsIndex : Op → Bool
   | .setResi _ _ => false
   | _ => true
+
+/-! ## from the physical lines of the file to the restraint
+
+  shelx.py `_parse_cards`: the continuation loop glues the physical lines of a wrapped instruction
+  (`line.split('!')[0].rpartition('=')[0] + next line`), `spline = line.split('!')[0].split()`; cards.py
+  `Restraint.__init__` / `_parse_line`: `spline[0]` is the keyword, of `spline[1:]` the tokens that are not numbers
+  (`my_isnumeric`) are `Restraint.atoms`. Which tokens are numbers is a parameter here (`isNum`): the theorems hold
+  for every such predicate. -/
+
+/-- `Restraint.__init__` on the split logical line -/
+def restrOf (isNum : Str → Bool) : List Str → Option Restr
+  | [] => none
+  | kw :: rest => some { kw := kw, atoms := rest.filter fun t => !isNum t }
+
+/-- MODEL: the logical lines as the continuation loop of `_parse_cards` glues them, logical line `i` split and made a
+    restraint, the restraint evaluated. `none`: the loop raised, there is no such line, or the line is empty. -/
+def assignLines (isNum : Str → Bool) (f : File) (lines : List C05.Line) (i : Nat) : Option (Except PyErr Outcome) :=
+  match C05.modelLogicalLines lines with
+  | .error _ => none
+  | .ok ls =>
+    match ls[i]? with
+    | none => none
+    | some g => (restrOf isNum (C05.classify g.2).spline).map (assign f)
+
+/-- SPEC: the restraint that logical line `i` of the file denotes — the layout is read by its specification `C05.norm`
+    (comment = everything from the first `!`; `=` as last non-blank character of the rest marks a wrapped line; the
+    tokens of the continuation lines follow those of the line before) -/
+def restrOfLines (isNum : Str → Bool) (lines : List C05.Line) (i : Nat) : Option Restr :=
+  match C05.norm lines with
+  | none => none
+  | some n =>
+    match n[i]? with
+    | none => none
+    | some toks => restrOf isNum toks
 
 /-! ## Legacy: the code before fixes/C17_1..4 (kept for the `decide` witnesses) -/
 namespace Legacy
